@@ -150,6 +150,14 @@ def layout_monotone(lay):
 ORIGINS3 = [[0.0, 0.0, 0.0], [1.0, -2.0, 0.5]]
 CELLS3 = [[0.25, 0.25, 0.25], [0.25, 0.5, 0.125], [0.1, 0.3, 0.7]]
 TIMES = [0.5, 0.0, -1.25, 1.3924182125972017e-08, 2.0]
+# coordinates that are huge / cells that are tiny compared with the default tolerances of np.isclose (rtol 1e-5 of the
+# coordinate, atol 1e-8): exact dyadic numbers, so every comparison the tools make is decidable
+FAR = {"origin": [1048576.0, -2097152.0, 524288.0], "dx0": [0.25, 0.5, 0.125]}
+MICRO = {"origin": [0.0, 0.0, 0.0], "dx0": [2.0 ** -30, 2.0 ** -29, 2.0 ** -31]}
+
+
+def extreme_geometries(ndims):
+    return [{"origin": g["origin"][:ndims], "dx0": g["dx0"][:ndims]} for g in (FAR, MICRO)]
 
 
 def geometries(ndims, origins=None, cells=None):
@@ -169,6 +177,17 @@ def rotate(seq, seed):
         return seq
     k = seed % len(seq)
     return seq[k:] + seq[:k]
+
+
+def thin_meshes(ndims):
+    """boxes that are one cell thick in some direction, odd extents, a single-cell box (all valid)"""
+    if ndims == 2:
+        return [{"ndims": 2, "domain": [3, 1], "levels": [[[[0, 0], [1, 0]], [[2, 0], [2, 0]]]]},
+                {"ndims": 2, "domain": [3, 3], "levels": [[[[0, 0], [2, 0]], [[0, 1], [0, 2]], [[1, 1], [2, 2]]],
+                                                         [[[1, 1], [1, 3]], [[2, 1], [4, 1]], [[2, 2], [4, 3]]]]}]
+    return [{"ndims": 3, "domain": [3, 2, 1], "levels": [[[[0, 0, 0], [1, 1, 0]], [[2, 0, 0], [2, 0, 0]], [[2, 1, 0], [2, 1, 0]]]]},
+            {"ndims": 3, "domain": [3, 1, 3], "levels": [[[[0, 0, 0], [2, 0, 0]], [[0, 0, 1], [0, 0, 2]], [[1, 0, 1], [2, 0, 2]]],
+                                                        [[[1, 0, 1], [1, 1, 3]], [[2, 0, 1], [4, 0, 1]], [[2, 0, 2], [4, 1, 3]]]]}]
 
 
 # a few fixed meshes used as irrelevant context (rotated by VERIF_SEED)
